@@ -61,7 +61,7 @@ def main(pid, argv):
     ck.rule = ("cases: random byte streams (frames of 0..9000 bytes + payload) x segmentations (one write, byte-by-byte, random cuts, cut after every NUL, "
                "payload coalesced with the preceding frame) x random sequences of ReadBytes(delim) / Read(n) operations, run on ctxio.Conn over a connection that "
                "delivers exactly those chunks; plus upgraded calls through a real service (handler side) and a real client (Upgrade side) with frame+payload in one "
-               "segment. distinct = distinct (chunks, ops); non-trivial = at least one raw read after a frame read")
+               "segment; plus 20 MiB of raw payload in one direction and a raw read that stays blocked while writes on the same connection complete. distinct = distinct (chunks, ops); non-trivial = at least one raw read after a frame read")
     ck.assumptions = ["chunks are non-empty (a conn.Read returning 0 bytes without error is outside the model)",
                       "bufio's buffer is modelled with its real discipline (capacity 4096 in Go, arbitrary cap >= 1 in the theorems)"]
     ck.check_obligations()
@@ -148,6 +148,22 @@ def main(pid, argv):
                     nf += 1
                     ck.fail("wire-" + mode, l, "after the %s frame the raw read did not return the bytes that follow it: got %s, sent %s"
                             % ("request" if mode == "upgrade-service" else "reply", o[:60], p.hex()[:60]), impl=o[:200])
+    # the byte stream in the raw phase: large amounts, and both directions in use at once (h_ctx drives ctxio.Conn over real sockets)
+    if not ck.replay:
+        okc, outc, hctx = V.build_go("h_ctx")
+        if not okc:
+            ck.broken.append("harness h_ctx does not build against /repo: " + outc[-600:])
+        else:
+            dl = ["%s duplex cancel %s" % (t, w) for t in ("unix", "tcp") for w in ("bigraw", "rwshare")] * (3 if thorough else 1)
+            rc, out, err = V.run_lines([hctx], dl, timeout=900)
+            for l, o in zip(dl, out + ["CRASH"] * (len(dl) - len(out))):
+                ck.evaluations += 1
+                ck.count("raw-phase:" + l.split()[3])
+                ck.distinct.add(l)
+                if not o.startswith("class=ok "):
+                    nf += 1
+                    ck.fail("wire-raw-phase", l, "raw reads did not deliver exactly the bytes the peer sent, once and in order "
+                            "(20 MiB one way / a read blocked while writes complete): " + o[:200], impl=o[:300])
     ck.extra["failing_inputs_total"] = nf
     small = [(c, m) for c, m in zip(cases, model) if len(c) < 200][:150]
     pairs = []
